@@ -15,8 +15,10 @@
     registry, whose live objects carry the symbol the model predicts; prefixes (symbols and word
     forms) are rejected on every non-prefixable spelling; every prefix × prefixable symbol and every
     prefix word × listed spelling is a listed name; the prefix table is the SI table.
-  unyt violates the full statement (40 listed names cannot be parsed): `C14_full` is kept,
-  `every_name_resolves_correctly_partial` carries the explicit guard, `C14_counterexample` the witness.
+  The statement is at full strength (`C14_full`, proved as `every_name_resolves_correctly`): the 40 names
+  `<prefix word>°C` that could not be parsed are repaired by the `fix:` that looks documented names up under
+  their rewritten spelling (`_parsing._rewritten_name_alternatives`, regenerated into `rewrittenT`); on an
+  unyt without that repair the name obligations fail for exactly those names.
 -/
 import UnytModel.C14Check
 import UnytProofs.Lemmas.C14
@@ -120,34 +122,32 @@ example : invTree.get? (Name.ofChars [109, 101, 116, 101, 114]) = some (Name.ofC
     shadowed there by a non-unit) and by the `add_symbols` namespace of a custom registry exactly as
     the independent reference reads it: one reading, a table symbol or listed spelling before any
     prefix split, the exact SI prefix; and the live attribute objects carry the predicted symbol. -/
-def C14_full : Prop := ∀ r ∈ allRows, nameOkFull r = true
+def C14_full : Prop := ∀ r ∈ allRows, nameOk r = true
 
-/-- what holds today: the full statement outside the explicit guard `excluded` (a prefix word or
-    title-cased prefix word followed by `°C` — known finding `unusable|word+alias|°`) -/
-theorem every_name_resolves_correctly_partial : ∀ r ∈ allRows, nameOk r = true := by
+/-- the full statement holds -/
+theorem every_name_resolves_correctly : C14_full := by
   intro r hr
   obtain ⟨i, hi, hm⟩ := mem_allRows hr
   have h := names_chunks i hi
   simp only [namesChunkOk, List.all_eq_true] at h
   exact h r hm
 
-/-- the string route: for every listed name outside the guard the reference has exactly one
-    reading `(k, c)`, and the model reads the name from the row `c` with a prefix of power `k` -/
-theorem string_route_reads_as_reference_partial (r : NameRow) (hr : r ∈ allRows)
-    (hg : excluded r.name = false) :
+/-- the string route: for every listed name the reference has exactly one reading `(k, c)`, and the
+    model reads the name from the row `c` with a prefix of power `k` -/
+theorem string_route_reads_as_reference (r : NameRow) (hr : r ∈ allRows) :
     ∃ k c, refVerdict r.name = .unique k c ∧ readingMatches (stringReading ctxBits r.name) k c = true := by
-  have h := (nameCheck_parts false r (every_name_resolves_correctly_partial r hr)).2.1
-  rcases h with h | ⟨_, h⟩
-  · unfold stringOk at h
-    cases hv : refVerdict r.name with
-    | unknown => simp [hv] at h
-    | ambiguous => simp [hv] at h
-    | unique k c => exact ⟨k, c, rfl, by simpa [hv] using h⟩
-  · rw [hg] at h; cases h
+  have h := (nameCheck_parts r (every_name_resolves_correctly r hr)).2.1
+  unfold stringOk at h
+  cases hv : refVerdict r.name with
+  | unknown => simp [hv] at h
+  | ambiguous => simp [hv] at h
+  | unique k c => exact ⟨k, c, rfl, by simpa [hv] using h⟩
 
-/-- non-vacuity: the table has rows outside the guard (its very first row, `m`) and rows inside it -/
-example : (rowsChunk 0).head?.map (fun r => excluded r.name) = some false := by decide +kernel
-example : ((rowsChunk witnessChunk).any fun r => excluded r.name) = true := by decide +kernel
+/-- non-vacuity: the table has rows, among them the formerly unparsable `kilo°C` -/
+example : (rowsChunk 0).length > 0 := by decide +kernel
+example : (invTree.get? (Name.append (Name.ofChars [107, 105, 108, 111]) Ref.C14.degreeSignC)).isSome = true
+    ∧ (stringReading ctxBits (Name.append (Name.ofChars [107, 105, 108, 111]) Ref.C14.degreeSignC)).isSome = true := by
+  decide +kernel
 example : allRows.length = 3872 ∨ allRows.length = invCount := Or.inr (by
   have h := (by decide +kernel : namespacesClosed = true)
   simp only [namespacesClosed, Bool.and_eq_true, beq_iff_eq] at h
@@ -155,26 +155,25 @@ example : allRows.length = 3872 ∨ allRows.length = invCount := Or.inr (by
 
 /-- … and the same holds for the tables at `Float` (what the driver runs) and at `Rat` -/
 theorem string_route_reads_as_reference_any_carrier (K : Type) [OfBits K] (r : NameRow)
-    (hr : r ∈ allRows) (hg : excluded r.name = false) :
+    (hr : r ∈ allRows) :
     ∃ k c, refVerdict r.name = .unique k c ∧ readingMatches (stringReading (ctx K) r.name) k c = true := by
-  obtain ⟨k, c, hv, hm⟩ := string_route_reads_as_reference_partial r hr hg
+  obtain ⟨k, c, hv, hm⟩ := string_route_reads_as_reference r hr
   exact ⟨k, c, hv, by simpa only [ctx, stringReading_mapK] using hm⟩
 
 /-- the prefix dict holds SI values -/
 theorem prefix_dict_is_SI : prefixDictOk = true := by decide +kernel
 
-/-- THE NUMERIC STATEMENT.  For every listed name outside the guard, `Unit(name)` at exact
+/-- THE NUMERIC STATEMENT.  For every listed name (other than the empty alias of `dimensionless`), `Unit(name)` at exact
     arithmetic (the `Rat` tables: every cell the exact value of the double the code holds) is the
     row `c` of the reference's unique reading `(k, c)` — same dimension, same offset — with the
     scale of `c` multiplied by a prefix value that is `10^k` up to the rounding of a double
     (and by nothing at all when the reading has no prefix). -/
-theorem listed_name_denotes_prefix_times_unit (r : NameRow) (hr : r ∈ allRows)
-    (hg : excluded r.name = false) (hne : r.name ≠ 0) :
+theorem listed_name_denotes_prefix_times_unit (r : NameRow) (hr : r ∈ allRows) (hne : r.name ≠ 0) :
     ∃ k c eb e, refVerdict r.name = .unique k c ∧ (ctx Rat).lut.get? c = some eb
       ∧ stringEntry (ctx Rat) r.name = some e ∧ e.dim = eb.dim ∧ e.offset = eb.offset
       ∧ ((k = 0 ∧ e.scale = eb.scale) ∨
          (∃ pv, e.scale = eb.scale * pv ∧ absR (pv - Ref.C14.pow10 k) ≤ Ref.C14.pow10 k / (2 ^ 50 : Nat))) := by
-  obtain ⟨k, c, hv, hm⟩ := string_route_reads_as_reference_any_carrier Rat r hr hg
+  obtain ⟨k, c, hv, hm⟩ := string_route_reads_as_reference_any_carrier Rat r hr
   cases hsr : stringReading (ctx Rat) r.name with
   | none => simp [hsr, readingMatches] at hm
   | some rd =>
@@ -215,51 +214,61 @@ theorem listed_name_denotes_prefix_times_unit (r : NameRow) (hr : r ∈ allRows)
           rw [← hpv]
           exact this
 
-/-- no name has a second, different reading: for every listed name (guarded or not) the reference
+/-- no name has a second, different reading: for every listed name the reference
     reader — which tries every prefix spelling at every position and every spelling of every unit —
     finds a unique reading in the winning class -/
 theorem no_second_reading (r : NameRow) (hr : r ∈ allRows) :
     ∃ k c, refVerdict r.name = .unique k c := by
-  have h := (nameCheck_parts false r (every_name_resolves_correctly_partial r hr)).2.2.1
+  have h := (nameCheck_parts r (every_name_resolves_correctly r hr)).2.2.1
   unfold usOk at h
   cases hv : refVerdict r.name with
   | unknown => simp [hv] at h
   | ambiguous => simp [hv] at h
   | unique k c => exact ⟨k, c, rfl⟩
 
-/-- the attribute routes agree with the reference for EVERY listed name (also the guarded ones:
-    `unyt.unit_symbols.kilo°C` is the unit that `"kilo°C"` cannot be parsed into), and the live
+/-- the attribute routes agree with the reference for every listed name, and the live
     objects of the three namespaces carry the symbol the model predicts -/
 theorem attributes_agree (r : NameRow) (hr : r ∈ allRows) :
     usOk r = true ∧ topOk r = true ∧ customOk r = true ∧ treeOk r = true := by
-  obtain ⟨ht, _, hu, htop, hc⟩ := nameCheck_parts false r (every_name_resolves_correctly_partial r hr)
+  obtain ⟨ht, _, hu, htop, hc⟩ := nameCheck_parts r (every_name_resolves_correctly r hr)
   exact ⟨hu, htop, hc, ht⟩
 
-/-- every guarded name really is unusable as a unit string: the guard cannot outlive the defect -/
-theorem exclusions_fail (r : NameRow) (hr : r ∈ allRows) (hg : excluded r.name = true) :
-    stringReading ctxBits r.name = none := by
-  obtain ⟨i, hi, hm⟩ := mem_allRows hr
-  have h := exclusions_chunks i hi
-  simp only [exclusionsChunkOk, List.all_eq_true] at h
-  have := h r hm
-  simp only [exclusionFails, hg, Bool.not_true, Bool.false_or, Option.isNone_iff_eq_none] at this
-  exact this
+/-- shadowing at top level is pinned to the documented list: every name of `unyt.unit_symbols` whose
+    top-level attribute is not a Unit is one of the hand-listed names of physical constants -/
+theorem shadowing_is_documented : ∀ n ∈ shadowedC, n ∈ Ref.C14.shadowedByConstants := by
+  intro n hn
+  have h := (by decide +kernel : namespacesClosed = true)
+  simp only [namespacesClosed, Bool.and_eq_true, List.all_eq_true] at h
+  exact memN_mem (h.1.1.1.2 n hn).2
 
-/-- the full statement is false of the faithful model: the chunk that holds `kilo°C` contains a
-    guarded name for which the full per-name check fails (replayed on the real code every run) -/
-theorem C14_counterexample : ¬ C14_full := by
-  intro hfull
-  have h : ((rowsChunk witnessChunk).any fun r => excluded r.name && !nameOkFull r) = true := by
-    decide +kernel
-  simp only [List.any_eq_true, Bool.and_eq_true, Bool.not_eq_true'] at h
-  obtain ⟨r, hm, _, hf⟩ := h
-  have := hfull r (mem_chunk_allRows witnessChunk hm)
-  rw [hf] at this; cases this
+/-- every listed name that is not a documented name of a physical constant IS a unit attribute of
+    the top-level namespace: the live object carries the symbol of the `unit_symbols` object and the
+    model reads it as the reference reads the name — a unit attribute cannot vanish from `unyt.*` or
+    be rebound to a non-unit without failing this -/
+theorem top_level_unit_unless_documented_constant (r : NameRow) (hr : r ∈ allRows)
+    (hd : memN r.name Ref.C14.shadowedByConstants = false) :
+    memN r.name shadowedC = false ∧ r.topSym = symOf (unitSymbolsAttr ctxBits r.name)
+      ∧ ∃ k c, refVerdict r.name = .unique k c
+          ∧ readingMatches (topLevelAttr ctxBits shadowedC r.name) k c = true := by
+  have h := (attributes_agree r hr).2.1
+  unfold topOk at h
+  split at h
+  · simp only [Bool.and_eq_true] at h; rw [hd] at h; exact absurd h.2 (by simp)
+  · rename_i hm
+    cases hv : refVerdict r.name with
+    | unknown => simp [hv] at h
+    | ambiguous => simp [hv] at h
+    | unique k c =>
+      simp only [hv, Bool.and_eq_true] at h
+      have hm' : memN r.name shadowedC = false := by simpa using hm
+      refine ⟨hm', ?_, k, c, rfl, h.1⟩
+      have := Nat.eq_of_beq_eq_true h.2
+      simpa [topLevelAttr, hm'] using this
 
 /-- non-prefixable units reject prefixes: for every prefix spelling of the regenerated table
     (symbols and word forms) and every spelling of every non-prefixable unit (symbol and listed
     alternatives), the concatenation is not a unit string — unless it is itself a listed name, in
-    which case `every_name_resolves_correctly_partial` says what it denotes -/
+    which case `every_name_resolves_correctly` says what it denotes -/
 theorem nonprefixable_reject_prefix : ∀ p ∈ prefixSpellings, rejectsAll p = true := by
   have hc : spellingsCovered = true := by decide +kernel
   intro p hp
